@@ -31,7 +31,7 @@ POW_K = [1, 2, 3, 4, 0.5, 1.5, -1, 2.5]
 
 @st.composite
 def cases(draw):
-    env = draw(gen.envs(max_scalars=2, max_vectors=1, max_matrices=1, max_vec=4, max_mat=2, max_params=1))
+    env = draw(gen.envs(max_scalars=2, max_vectors=1, max_matrices=1, max_vec=4, max_mat=2, max_params=1, big_sizes=False))
     g = gen.G(draw, env, gen.Cfg())
     strata = ["general", "general"]
     if env["vectors"]:
@@ -122,6 +122,9 @@ def check(case):
                 if cap.calls and cap.calls[0].get("hess") is not None:
                     solver_h = cap.calls[0]["hess"]
                     pnames = [v.name for v in prob.variables]
+            except ArithmeticError as ex:
+                # the objective is undefined at the start point (e.g. 0 / (x'0x)): a model error, not a statement about Hessians
+                classes.append("solve-setup:objective-undefined-at-x0:" + exc_label(ex))
             except Exception as ex:
                 return Result.violation(f"solve-setup-raises:{exc_label(ex)}", f"{show(recipe)}: {ex!r}", classes)
         judged, offdiag = 0, False
